@@ -116,6 +116,11 @@ Theorem native_const_spans_decode : forall m : imap,
   Sorted Z.lt (map fst dec).
 Proof. exact C14_proofs.native_const_spans_decode_lemma. Qed.
 
+(* the boolean checker the runner applies to the implementation's spans and deltas means the same *)
+Theorem native_checker_sound : forall (given : imap) spans deltas,
+  pops_spec given spans deltas = true -> decodes_to given spans deltas.
+Proof. exact C14_proofs.pops_spec_sound_lemma. Qed.
+
 (* the constructor as a whole: an accepted input is exposed with the given scalars, a schema in -4..8, the label
    pairs of MakeLabelPairs, and spans/deltas that decode to the given populations on both sides *)
 Theorem native_const_faithful : forall d count sum (pos neg : imap) zero schema zt lvs o,
@@ -168,6 +173,15 @@ Theorem exemplar_placement : forall count bs exs,
   chain None bs -> Forall (fun e => is_nan (ex_value e) = false) exs ->
   fold_left (place_one count) exs bs = spec_place bs count exs.
 Proof. exact C14_proofs.exemplar_placement_lemma. Qed.
+
+(* how to read spec_place: the bucket at position n has the wrapped bucket's bound and count and carries the last
+   exemplar lying in (previous bound, own bound], else what the wrapped bucket carried *)
+Theorem exemplar_placement_reading : forall count exs bs lo b_lo b r,
+  spec_place_from lo bs count exs = b_lo ++ b :: r -> (length b_lo < length bs)%nat ->
+  exists b0 lo', nth_error bs (length b_lo) = Some b0 /\ b_bound b = b_bound b0 /\ b_cum b = b_cum b0 /\
+    (lo' = match length b_lo with O => lo | S j => option_map b_bound (nth_error bs j) end) /\
+    b_ex b = match last_in lo' (b_bound b0) exs with Some e => Some e | None => b_ex b0 end.
+Proof. exact C14_proofs.spec_place_reading. Qed.
 
 (* whatever the exemplars are: the wrapper's output keeps the wrapped value / count and every wrapped bucket's bound
    and cumulative count; it only adds exemplars and +Inf buckets carrying the sample count *)
